@@ -437,8 +437,8 @@ example : ∃ rows, leafSample o0 .uniform (.prim "x" 1 ["t"]) 3 false pT = .ok 
 
 /-! ## full-strength statements that are not proved for every sampler expression
 
-  Both are decided on every run for the real code by the correspondence and the oracles; as theorems
-  only the parts above (`rows_carry_partial_*`) exist.  Missing: the per-row-loop kinds (`perRow`,
+  `C02_full_carry` is proved below (`rows_carry`, `C02_full_carry_holds`).  `C02_full_pairing` is decided on every run for
+  the real code by the correspondence and the oracles; as a theorem only `leafSample_paired_partial` exists.  Missing: the per-row-loop kinds (`perRow`,
   `flatMap forRow`) need the same carry lemma, and pairing needs reflexivity/monotonicity lemmas of
   `Row.sub` over the mutual `Row`/`Pt` types. -/
 
@@ -807,5 +807,117 @@ theorem depProduct_4_3 :
     ((Dom.prod (.prim "x" 1 ["t", "D"]) (.prim "t" 2 [])).sample (fun _ => true) 4
         [.ext 0 ["D"], .ext 1 ["D"], .ext 2 ["D"]]).length = 12 := by
   decide +kernel
+
+/-! ## pairing (partial) -/
+
+
+theorem sub_refl (g : Row) : g.sub g = true := by
+  simp [Row.sub, List.all_eq_true]
+
+theorem rowsOr1_single (ρ : Row) : rowsOr1 (single ρ) = [ρ] := by
+  unfold single rowsOr1
+  by_cases h : ρ = Row.nil <;> simp [h]
+
+/-- the rows a per-row call produces on a primitive domain: the point was made for exactly that row -/
+theorem forRow_prim_paired (o : Oracle) (v : Var) (id : Nat) (deps : List Var) (n : Nat) (ρ : Row) (hρ : ρ.paired = true) :
+    ∀ x ∈ forRow o (.prim v id deps) n ρ, x.paired = true := by
+  intro x hx
+  simp only [forRow, Dom.sample, rowsOr1_single, List.flatMap_cons, List.flatMap_nil, List.append_nil,
+    List.map_map, List.mem_map, List.mem_range] at hx
+  obtain ⟨j, _, rfl⟩ := hx
+  simp [joinPt, Row.paired, Pt.pairedTo, sub_refl, hρ]
+
+theorem perRow_all (P : Row → Prop) (f : Row → Except Err (List Row)) :
+    ∀ (l rows : List Row), (∀ ρ ∈ l, ∀ r, f ρ = .ok r → ∀ x ∈ r, P x) → perRow f l = .ok rows → ∀ x ∈ rows, P x := by
+  intro l
+  induction l with
+  | nil => intro rows _ h; simp [perRow] at h; cases h; simp
+  | cons ρ rs ih =>
+    intro rows hf h
+    simp only [perRow] at h
+    cases h1 : f ρ with
+    | error e => simp [h1, bind, Except.bind] at h
+    | ok r =>
+      cases h2 : perRow f rs with
+      | error e => simp [h1, h2, bind, Except.bind] at h
+      | ok rest =>
+        simp only [h1, h2, bind, Except.bind, pure, Except.pure] at h
+        cases h
+        intro x hx
+        rcases List.mem_append.mp hx with hx | hx
+        · exact hf ρ (by simp) r h1 x hx
+        · exact ih rest (fun a ha => hf a (by simp [ha])) h2 x hx
+
+/-- partial pairing theorem: every leaf kind that works row by row (uniform with filter, Gaussian, LHS, grid /
+    exponential interval on a parameter-dependent domain, grid with filter) on a primitive domain returns only
+    rows whose point was made for the row it is joined with — for every verdict of the filter / membership test -/
+theorem leafSample_paired_partial (o : Oracle) (kind : LeafKind) (v : Var) (id : Nat) (deps : List Var) (n : Nat)
+    (filt : Bool) (ps rows : List Row) (hps : ∀ ρ ∈ ps, ρ.paired = true)
+    (hkind : (kind = .uniform ∧ filt = true) ∨ kind = .gaussian ∨ kind = .lhs ∨
+             (dependent (.prim v id deps) ps = true ∧ kind ≠ .uniform) ∨ (filt = true ∧ kind ≠ .uniform))
+    (h : leafSample o kind (.prim v id deps) n filt ps = .ok rows) : ∀ x ∈ rows, x.paired = true := by
+  have hr : ∀ ρ ∈ rowsOr1 ps, ρ.paired = true := by
+    intro ρ hρ
+    unfold rowsOr1 at hρ
+    split at hρ
+    · simp at hρ; subst hρ; rfl
+    · exact hps ρ hρ
+  have hfor : ∀ m, ∀ ρ ∈ rowsOr1 ps, ∀ x ∈ forRow o (.prim v id deps) m ρ, x.paired = true :=
+    fun m ρ hρ => forRow_prim_paired o v id deps m ρ (hr ρ hρ)
+  have hloop : ∀ ρ ∈ rowsOr1 ps, ∀ r, filterLoopRow o (.prim v id deps) n ρ = .ok r → ∀ x ∈ r, x.paired = true := by
+    intro ρ hρ r hr'
+    unfold filterLoopRow at hr'
+    split at hr'
+    · rename_i out e; cases hr'
+      exact accumLoop_all (fun x => x.paired = true) _ _ _ (fun _ => hfor n ρ hρ) _ _ _ _ (by simp) e
+    · cases hr'
+  unfold leafSample at h
+  split at h
+  · simp at hkind
+  · exact perRow_all _ _ _ _ hloop h
+  · exact perRow_all _ _ _ _ hloop h
+  · cases h
+    intro x hx
+    obtain ⟨ρ, hρ, hx⟩ := List.mem_flatMap.mp hx
+    unfold lhsRow at hx
+    simp only at hx
+    split at hx
+    · exact hfor n ρ hρ x (filterIdx_mem _ _ _ hx)
+    · rcases List.mem_append.mp hx with hx | hx
+      · exact hfor n ρ hρ x (filterIdx_mem _ _ _ hx)
+      · exact hfor _ ρ hρ x hx
+  · rename_i k hne1 hne2 hne3
+    split at h
+    · cases h
+    · split at h
+      · cases h
+        intro x hx
+        obtain ⟨ρ, hρ, hx⟩ := List.mem_flatMap.mp hx
+        exact hfor n ρ hρ x hx
+      · rename_i hdep
+        rcases hkind with ⟨rfl, hf⟩ | rfl | rfl | ⟨hd, _⟩ | ⟨hf, _⟩
+        · simp at hf
+        · first | exact (hne2 _).elim | exact (hne2 rfl).elim | (exfalso; simp at hne2)
+        · first | exact (hne3 rfl).elim | exact (hne3 _ rfl).elim | exact absurd rfl hne3
+        · exact absurd hd hdep
+        · simp at hf
+  · split at h
+    · cases h
+    · refine perRow_all _ _ _ _ ?_ h
+      intro ρ hρ r hr'
+      unfold gridFilterRow at hr'
+      simp only at hr'
+      split at hr'
+      · cases hr'; intro x hx; exact hfor n ρ hρ x (filterIdx_mem _ _ _ hx)
+      · split at hr'
+        · cases hr'; intro x hx; exact hfor _ ρ hρ x (filterIdx_mem _ _ _ hx)
+        · split at hr'
+          · rename_i out e
+            cases hr'
+            intro x hx
+            rcases List.mem_append.mp (List.mem_of_mem_take hx) with hx | hx
+            · exact hfor _ ρ hρ x (filterIdx_mem _ _ _ hx)
+            · exact accumLoop_all (fun x => x.paired = true) _ _ _ (fun _ => hfor n ρ hρ) _ _ _ _ (by simp) e x hx
+          · cases hr'
 
 end TPV.Sampler
